@@ -381,4 +381,17 @@ theorem into_records_source (full : Name) (ips : List (Bool × Nat)) (ports : Li
   unfold Mdns.intoRecords intoRecordsWith
   cases Txt.ofMap attrs <;> simp [bind, pure, Out.bind, classNamed, addrCode]
 
+/-! ### 24. the receive buffers of the service loops; a reply that cannot be serialised -/
+
+/-- **every service loop receives into a buffer of 9000 bytes** - the size `Props/C14Fits.lean` reasons
+with (`questions_le_9000`, `replyFits_9000`) and the largest multicast DNS message of RFC 6762 section 17:
+a query or an announcement up to that size is read whole (a loop that reads into 1472 bytes cuts a
+larger datagram short, `Packet::parse` refuses the rest, and nothing is answered or learnt) - **and a
+reply the serialiser refuses is logged and skipped** by both responder loops, like a failed send
+(`responder_send_policy`): one query for an unserialisable record does not end the service -/
+theorem service_shape_source :
+    (Gen.Env.serviceBuffers.getD [9000, 9000, 9000, 9000]).all (· ≥ 9000) = true ∧
+    (Gen.Env.serviceBuffers.getD [9000, 9000, 9000, 9000]).length = 4 ∧
+    (Gen.Env.responderBuildPolicy.getD ["log", "log"]).map policyOf = [Mdns.responderSendPolicy, Mdns.responderSendPolicy] := by decide
+
 end Dns.TieEnv
